@@ -26,6 +26,39 @@ def grpOps : Ops G G where
   addp := fun a b => a + b
   subp := fun a b => a - b
 
+/-- the 64-bit chain builder on a non-zero word (the statement of `C15.chain_eval` without the length) -/
+theorem makeChain_spec (k : Nat) (h0 : ¬ k = 0) (hk : k < 2 ^ 64) :
+    ∃ c, makeChain k = some c ∧ evalChain c = (k : Int) ∧ WF 7 c := by
+  have hW : k < W := by rw [W_eq]; exact hk
+  have hcap : 33 ≤ Ymq.Gen.Curves.chainCap := by decide
+  unfold makeChain makeChainCap
+  generalize Ymq.Gen.Curves.chainCap = cap at hcap
+  simp only [h0, if_false]
+  by_cases hodd : k % 2 = 1
+  · obtain ⟨c, h1, h2, _, h4⟩ := mk64_odd cap 16 (cap + 1) 0 k hodd
+      (by have : (8 : Nat) * 16 ^ 16 = 2 ^ 67 := by norm_num
+          rw [this]; exact lt_trans hk (by norm_num)) hW (by omega) (by omega)
+    exact ⟨c, h1, h2, h4⟩
+  · obtain ⟨t, m, ht1, ht, hm, hmo, hstep⟩ := mk64_even cap cap 0 k (by omega) hW (by omega) (by omega)
+    have hm63 : m < 8 * 16 ^ 15 := by
+      have h15 : (8 : Nat) * 16 ^ 15 = 2 ^ 63 := by norm_num
+      rw [h15]
+      by_contra hc
+      have h2t : 2 ≤ 2 ^ t := by
+        calc 2 = 2 ^ 1 := by norm_num
+          _ ≤ 2 ^ t := Nat.pow_le_pow_right (by norm_num) ht1
+      have : 2 * 2 ^ 63 ≤ 2 ^ t * m := Nat.mul_le_mul h2t (by omega)
+      have h64 : (2 : Nat) * 2 ^ 63 = 2 ^ 64 := by norm_num
+      omega
+    have hmW : m < W := by
+      have : m ≤ 2 ^ t * m := Nat.le_mul_of_pos_left m (Nat.pow_pos (by decide : 0 < 2))
+      omega
+    obtain ⟨c, h1, h2, _, h4⟩ := mk64_odd cap 15 cap 1 m hmo hm63 hmW (by omega) (by omega)
+    obtain ⟨hev, hwf⟩ := even_then (m7 := 7) t m c ht1 ht h4 h2
+    refine ⟨(2 * (t : Int)) :: c, ?_, ?_, hwf⟩
+    · rw [hstep, h1]; rfl
+    · rw [hev, ← hm]
+
 theorem grp_mul64 (k : Nat) (hk : k < 2 ^ 64) (P : G) : (grpOps : Ops G G).mul64 k P = some (k • P) := by
   unfold Ops.mul64 grpOps
   simp only
@@ -33,38 +66,7 @@ theorem grp_mul64 (k : Nat) (hk : k < 2 ^ 64) (P : G) : (grpOps : Ops G G).mul64
   by_cases h0 : k = 0
   · subst h0; simp
   · simp only [h0, if_false]
-    have hW : k < W := by rw [W_eq]; exact hk
-    have hcap : 33 ≤ Ymq.Gen.Curves.chainCap := by decide
-    -- same proof as C15.chainmul_spec (which lives in Props): through the builder lemmas
-    have hex : ∃ c, makeChain k = some c ∧ evalChain c = (k : Int) ∧ WF 7 c := by
-      unfold makeChain makeChainCap
-      generalize Ymq.Gen.Curves.chainCap = cap at hcap
-      simp only [h0, if_false]
-      by_cases hodd : k % 2 = 1
-      · obtain ⟨c, h1, h2, _, h4⟩ := mk64_odd cap 16 (cap + 1) 0 k hodd
-          (by have : (8 : Nat) * 16 ^ 16 = 2 ^ 67 := by norm_num
-              rw [this]; exact lt_trans hk (by norm_num)) hW (by omega) (by omega)
-        exact ⟨c, h1, h2, h4⟩
-      · obtain ⟨t, m, ht1, ht, hm, hmo, hstep⟩ := mk64_even cap cap 0 k (by omega) hW (by omega) (by omega)
-        have hm63 : m < 8 * 16 ^ 15 := by
-          have h15 : (8 : Nat) * 16 ^ 15 = 2 ^ 63 := by norm_num
-          rw [h15]
-          by_contra hc
-          have h2t : 2 ≤ 2 ^ t := by
-            calc 2 = 2 ^ 1 := by norm_num
-              _ ≤ 2 ^ t := Nat.pow_le_pow_right (by norm_num) ht1
-          have : 2 * 2 ^ 63 ≤ 2 ^ t * m := Nat.mul_le_mul h2t (by omega)
-          have h64 : (2 : Nat) * 2 ^ 63 = 2 ^ 64 := by norm_num
-          omega
-        have hmW : m < W := by
-          have : m ≤ 2 ^ t * m := Nat.le_mul_of_pos_left m (Nat.pow_pos (by decide : 0 < 2))
-          omega
-        obtain ⟨c, h1, h2, _, h4⟩ := mk64_odd cap 15 cap 1 m hmo hm63 hmW (by omega) (by omega)
-        obtain ⟨hev, hwf⟩ := even_then (m7 := 7) t m c ht1 ht h4 h2
-        refine ⟨(2 * (t : Int)) :: c, ?_, ?_, hwf⟩
-        · rw [hstep, h1]; rfl
-        · rw [hev, ← hm]
-    obtain ⟨c, h1, h2, h4⟩ := hex
+    obtain ⟨c, h1, h2, h4⟩ := makeChain_spec k h0 hk
     have hg := gapsOk_mkGaps P 4
     rw [h1]
     simp only
